@@ -51,7 +51,7 @@ func (f *Mapcar) Call(s *slip.Scope, args slip.List, depth int) (result slip.Obj
 	caller := ResolveToCaller(s, fn, d2)
 
 	pos++
-	list, ok := args[pos].(slip.List)
+	list, ok := listArg(args[pos])
 	if !ok {
 		slip.TypePanic(s, depth, "lists", args[pos], "list")
 	}
@@ -60,7 +60,7 @@ func (f *Mapcar) Call(s *slip.Scope, args slip.List, depth int) (result slip.Obj
 		min := len(list)
 		var l2 slip.List
 		for i := 1; i < len(args); i++ {
-			if l2, ok = args[i].(slip.List); !ok {
+			if l2, ok = listArg(args[i]); !ok {
 				slip.TypePanic(s, depth, "lists", args[i], "list")
 			}
 			if len(l2) < min {
@@ -71,7 +71,7 @@ func (f *Mapcar) Call(s *slip.Scope, args slip.List, depth int) (result slip.Obj
 		ca := make(slip.List, len(args)-1)
 		for n := 0; n < min; n++ {
 			for i := 1; i < len(args); i++ {
-				l2 := args[i].(slip.List)
+				l2, _ := listArg(args[i])
 				ca[i-1] = l2[n]
 			}
 			rlist[n] = primaryValue(caller.Call(s, ca, d2))
@@ -94,4 +94,14 @@ func primaryValue(v slip.Object) slip.Object {
 		return vs.First()
 	}
 	return v
+}
+
+// listArg returns the list an argument designates: nil is the empty list.
+func listArg(arg slip.Object) (slip.List, bool) {
+	if arg == nil {
+		return slip.List{}, true
+	}
+	list, ok := arg.(slip.List)
+
+	return list, ok
 }
